@@ -22,6 +22,9 @@ const CLUSTER_POOL: &[char] = &[
     '\u{1161}', '\u{11a8}', ' ', '。', 'Ｚ', '９', '\u{0e33}', '\u{0903}', '\u{0600}', '\t',
     // neighbours of CR / LF and the other line separators (must NOT be treated as line breaks)
     '\u{b}', '\u{c}', '\u{85}', '\u{2028}', '\u{2029}', '\u{1c}', '\u{1e}', '\u{9}', '\u{e}',
+    // characters whose type and UTF-8 width do not go together as usual: 4-byte kanji, 2-byte
+    // letters, 3-byte digits / letters, 4-byte symbols
+    '𠀋', '𠮷', '𪚲', 'é', 'Ω', 'я', '４', 'ｂ', '😀',
 ];
 
 const TYPES: [CharacterType; 6] = [
@@ -225,6 +228,12 @@ pub fn test_case(case: &FilterCase) -> TestResult {
     f.filter(&mut s);
     let again = util::observe(&s);
     ensure_eq!(&again, &after, "filter {} is not idempotent", case.filter);
+    // the same filter object used on another sentence in between: filters keep no state
+    let mut other = vaporetto::Sentence::from_tokenized("zz/Q1/Q2/Q3 y/R1 xxx/S1/S2/S3 w/T 12 a\\/b").map_err(|e| e.to_string())?;
+    f.filter(&mut other);
+    let mut s2 = case.sentence.to_sentence_via(0)?;
+    f.filter(&mut s2);
+    ensure_eq!(&util::observe(&s2), &after, "filter {} gives another result after it was used on a different sentence", case.filter);
     let changed_labels = before.labels != after.labels;
     let changed_tags = before.tags != after.tags;
     let untouched_eligible = match case.filter {
